@@ -58,20 +58,26 @@ def case(draw):
         k = draw(st.integers(0, 9))
         cnt = draw(st.sampled_from([0, 0, 0, 1, 2, 3]))
         if k <= 2:
-            steps.append(["/", cnt, draw(st.integers(0, len(pats) - 1))])
+            steps.append(["/", cnt, draw(st.sampled_from([-1] + list(range(len(pats))) * 2))])      # -1: empty pattern = previous one, this direction
         elif k <= 4:
-            steps.append(["?", cnt, draw(st.integers(0, len(pats) - 1))])
+            steps.append(["?", cnt, draw(st.sampled_from([-1] + list(range(len(pats))) * 2))])
         elif k <= 6:
             steps.append(["n", cnt])
         elif k <= 8:
             steps.append(["N", cnt])
         else:
             steps.append(["A", cnt])
+    seen = False
+    for st_ in steps:       # an empty pattern needs a previous one (without one the editor searches for the empty pattern: not in the statement)
+        if st_[0] in "/?":
+            if st_[2] < 0 and not seen:
+                st_[2] = 0
+            seen = True
     return {"lines": lines, "row": row, "off": off, "pats": pats, "steps": steps, "ic": draw(st.booleans())}
 
 
 def strategy(tier):
-    return case().filter(lambda c: not any(s[0] == "?" and _has_q(c["pats"][s[2]]) for s in c["steps"]))
+    return case().filter(lambda c: not any(s[0] == "?" and s[2] >= 0 and _has_q(c["pats"][s[2]]) for s in c["steps"]))
 
 
 # ------------------------------------------------------------------ reference
@@ -152,9 +158,14 @@ def simulate(c, mode):
     for st_ in c["steps"]:
         k, cnt = st_[0], max(1, st_[1])
         if k in "/?":
-            node = rxgen.from_json(c["pats"][st_[2]])
-            root = rx.grp(node)
-            rx.number_groups(root, 0)
+            if st_[2] < 0:
+                if last is None:
+                    continue            # no previous pattern: the search fails, the cursor stays
+                root = last[0]
+            else:
+                node = rxgen.from_json(c["pats"][st_[2]])
+                root = rx.grp(node)
+                rx.number_groups(root, 0)
             last = (root, 1 if k == "/" else -1)
             d = last[1]
         elif k in "nN":
@@ -203,7 +214,7 @@ def run_case(env, c):
     for st_ in c["steps"]:
         cnt = str(st_[1]) if st_[1] else ""
         if st_[0] in "/?":
-            keys += cnt + st_[0] + gen.delim_escape(strs[st_[2]], st_[0]) + "\n"
+            keys += cnt + st_[0] + (gen.delim_escape(strs[st_[2]], st_[0]) if st_[2] >= 0 else "") + "\n"
         elif st_[0] in "nN":
             keys += cnt + st_[0]
         else:
